@@ -48,6 +48,9 @@ AnyUnspec(rs) == \E k \in 1..Len(rs) : rs[k].ok = 3
 Lift(rs)  == IF AnyErr(rs) THEN Err
              ELSE IF AnyUnspec(rs) THEN Unspec
              ELSE IF AllOk(rs) THEN Ok(VList(Vals(rs))) ELSE May(VList(Vals(rs)))
+LiftRec(ks, rs) == IF AnyErr(rs) THEN Err
+                   ELSE IF AnyUnspec(rs) THEN Unspec
+                   ELSE IF AllOk(rs) THEN Ok(VRec(ks, Vals(rs))) ELSE May(VRec(ks, Vals(rs)))
 Ints(s)   == VList([k \in 1..Len(s) |-> VInt(s[k])])
 TupleKeys(k) == [j \in 1..k |-> ToString(j - 1)]
 
@@ -185,6 +188,8 @@ VWalk(v, idxs, rest) ==
   IF idxs = <<>> THEN VGet(v, rest)
   ELSE IF Head(idxs) = NoBound THEN Ok(VNone)
   ELSE IF IsNone(v) THEN Ok(VNone)
+  ELSE IF IsRec(v) THEN                            \* integer indexes pass through records too, field by field
+       LiftRec(v.ks, [j \in 1..Len(v.vs) |-> VWalk(v.vs[j], idxs, rest)])
   ELSE IF ~IsList(v) THEN Err
   ELSE LET n == Len(v.xs)  i == IF Head(idxs) < 0 THEN Head(idxs) + n ELSE Head(idxs) IN
        IF i < 0 \/ i >= n THEN Err ELSE VWalk(v.xs[i + 1], Tail(idxs), rest)
@@ -221,9 +226,7 @@ VGet(v, items) ==
        IN IF r.ok = 0 THEN Err ELSE VGet(r.v, t)
   ELSE IF IsNone(v) THEN Ok(VNone)                 \* options are transparent to positional items
   ELSE IF IsRec(v) THEN                            \* positional items pass through records, field by field
-       LET rs == [j \in 1..Len(v.vs) |-> VGet(v.vs[j], items)] IN
-       IF AnyErr(rs) THEN Err
-       ELSE [ok |-> IF AllOk(rs) THEN 1 ELSE 2, v |-> VRec(v.ks, Vals(rs))]
+       LiftRec(v.ks, [j \in 1..Len(v.vs) |-> VGet(v.vs[j], items)])
   ELSE IF ~IsList(v) THEN Err                      \* too many dimensions in slice
   ELSE LET n == Len(v.xs) IN
   CASE h.k = "range" ->
@@ -339,6 +342,7 @@ MayRefuse(items) ==
                                      /\ HasArr(items)
   \/ \E k \in 1..Len(items) : items[k].k = "missing" /\ \E j \in 1..Len(items) : j # k /\ IsAdv(items[j])
 
+RECURSIVE VGetItem(_, _, _)
 \* The whole of Content::getitem for an array whose element type is T and value v.
 \* Index well-formedness and type-level refusals first (they do not depend on the data),
 \* then the value walk.
@@ -346,6 +350,8 @@ VGetItem(v, T, items) ==
   LET nell == Cardinality({k \in 1..Len(items) : items[k].k = "ellipsis"}) IN
   IF \E k \in 1..Len(items) : items[k].k = "range" /\ items[k].s = 0 THEN Err
   ELSE IF nell > 1 THEN Unspec              \* not a well-formed index
+  \* an Ellipsis in last place stands for "everything below": nothing to expand, whatever the depths
+  ELSE IF nell = 1 /\ items[Len(items)].k = "ellipsis" THEN VGetItem(v, T, SubSeq(items, 1, Len(items) - 1))
   ELSE IF nell = 1 /\ MinDepthE(T) # MaxDepthE(T) THEN Err
   ELSE LET its == ExpandEllipsis(items, MinDepthE(T)) IN
        IF FieldUnspec(TVar(T), its) THEN Unspec
@@ -422,8 +428,9 @@ VAxisOp(o, v, T, axis) ==
   LET pa == AxisWrap(T, axis, 0) IN
   IF pa = WrapErr \/ ~AxisOkE(T, axis, 0) THEN Err
   ELSE IF pa = 0 THEN
-         \* RecordArray::num at its own level answers field by field: a record of lengths
-         (CASE o.n = "num" -> Ok(IF T.k = "rec" THEN VRec(T.ks, [j \in 1..Len(T.xs) |-> VInt(Len(v.xs))]) ELSE VInt(Len(v.xs)))
+         \* (a bare RecordArray answers with a record holding the length once per field, the same records behind an
+         \*  IndexedArray or an option answer with the length: known finding F60)
+         (CASE o.n = "num" -> Ok(VInt(Len(v.xs)))
             [] OTHER -> Ok(ListOp(o, v.xs)))
   ELSE Ok(VList([j \in 1..Len(v.xs) |-> AxisV(o, v.xs[j], T, axis, 0)]))
 
@@ -440,7 +447,11 @@ FlattenOkE(T, axis, depth) ==
          [] T.k = "opt" -> FlattenOkE(T.x, pa, depth)
          \* RecordArray::offsets_and_flattened: "arrays of records cannot be flattened (but their contents can be)":
          \* the level of the records themselves is refused, deeper levels are flattened field by field
-         [] T.k = "rec" -> pa # depth + 1 /\ \A j \in 1..Len(T.xs) : FlattenOkE(T.xs[j], pa, depth)
+         \* (a field that would be flattened at the records' own level -- its negative axis resolving there -- is
+         \*  refused as well: the fields would no longer line up)
+         [] T.k = "rec" -> /\ pa # depth + 1
+                           /\ \A j \in 1..Len(T.xs) : /\ AxisWrap(T.xs[j], pa, depth) # depth + 1
+                                                       /\ FlattenOkE(T.xs[j], pa, depth)
          [] OTHER -> FALSE
 \* xs: the elements (each of type T) of a node at `depth`; result: the elements of the flattened node
 RECURSIVE FlattenE(_, _, _, _)
